@@ -644,12 +644,26 @@ def gen_j_case(rng):
     off = [Fraction(rng.choice([0, 0, 7, -12]), 1) for _ in range(D)]
     big = rng.random() < 0.3
     if big:
-        # large offset relative to the spread (Wave 3): sums, mean (N = 2^k) and x - mean stay exact in binary64
-        # (offset 2^p, p <= 40: p + 2 + log2 N + 1 < 53), P^T (x - mean) has small terms; a hoisted
-        # P^T x - P^T mean has not
-        pw = rng.randint(20, 40)
-        off = [Fraction(rng.choice([1, -1, 3, 0]) * 2 ** (pw - rng.choice([0, 0, 3, 9]))) for _ in range(D)]
-    X = [[Fraction(rng.randint(-8, 8), 2 ** rng.choice([0, 1, 2])) + off[f] for _ in range(N)] for f in range(D)]
+        # large offset relative to the spread (Wave 3): offset +-m 2^p with the largest p <= the drawn one for which
+        # the feature sums, the mean (N = 2^k) and hence x - mean are exact in binary64 (sum |x| / granularity < 2^53):
+        # p up to 51.  P^T (x - mean) then has small terms; a hoisted P^T x - P^T mean needs p + 7 bits and more
+        sh = rng.choice([0, 1, 2])
+        base = [[Fraction(rng.randint(-8, 8), 2 ** sh) for _ in range(N)] for _ in range(D)]
+        pw = rng.randint(42, 51)
+        mult = [rng.choice([1, -1, 3, 0]) for _ in range(D)]
+        if not any(mult):
+            mult[0] = 1
+        drop = [rng.choice([0, 0, 3, 9]) for _ in range(D)]
+        while True:
+            off = [Fraction(mult[f] * 2 ** max(pw - drop[f], 0)) for f in range(D)]
+            X = [[base[f][t] + off[f] for t in range(N)] for f in range(D)]
+            gx = _gran(v for row in X for v in row)
+            if pw <= 0 or all(sum(abs(v) for v in row) / gx < 2 ** 53 and abs(sum(row)) / (gx / N) < 2 ** 53 * N
+                              for row in X):
+                break
+            pw -= 1
+    else:
+        X = [[Fraction(rng.randint(-8, 8), 2 ** rng.choice([0, 1, 2])) + off[f] for _ in range(N)] for f in range(D)]
     P = [[Fraction(rng.randint(-9, 9), 2 ** rng.choice([0, 1, 3])) for _ in range(d)] for _ in range(D)]
     return {"kind": "J", "gen": "offset" if big else "plain", "N": N, "D": D, "d": d, "X": [[fs(v) for v in r] for r in X],
             "P": [[fs(v) for v in r] for r in P]}
@@ -1530,7 +1544,7 @@ def run(ctx):
                     "(probe votes %s); the model's `seen` = read_lower does not describe it" % stats["triangle_votes"])
     stats["t_g_done_s"] = round(ctx.elapsed(), 1)
     n += eval_k(ctx, exe1, mexe, [c for c in kc if c.get("kind") != "J"], stats, reads=reads or "lower")
-    jc = [c for c in ck if c.get("kind") == "J"] + [gen_j_case(rng) for _ in range(40 if quick else 1500)]
+    jc = [c for c in ck if c.get("kind") == "J"] + [gen_j_case(rng) for _ in range(80 if quick else 1500)]
     kc = [c for c in kc if c.get("kind") != "J"]
     n += eval_j(ctx, exe1, mexe, jc, stats)
     hist["J"] = len(jc)
